@@ -156,6 +156,11 @@ func runC18(c *core.Ctx) {
 		return
 	}
 
+	// ---- the traversal's node result is nil for a key beyond the last element: guarded before every field access
+	c.Doc("nil-guard", 3, "Put/Get/Remove read fields of the traversal's node result only behind its nil test")
+	for _, fn := range []*ssa.Function{put, get, rem} {
+		nodeNilGuard(c, fn, travOf[fn])
+	}
 	// ---- traversals: candidate test, level loop and cursor effects (independent of the loop forms: c18trav.go)
 	advance := map[*ssa.Function]string{}
 	for fn := range trav {
@@ -1162,4 +1167,163 @@ func tallerThanList(p *ir.Path, put *ssa.Function, mk *ir.Step, trav *ssa.Functi
 		}
 	}
 	return false
+}
+
+// nodeNilGuard: the node a traversal returns may be nil (key beyond the last element, empty list): every field access
+// through it in Put / Get / Remove sits behind a test of that very value against nil. Decided on SSA by dominance: a
+// FieldAddr on the traversal's node result is dominated by the non-nil successor of an `if v != nil` / `v == nil` on it.
+func nodeNilGuard(c *core.Ctx, fn, trav *ssa.Function) {
+	const rule = "nil-guard"
+	name := "skiplist." + fn.Name()
+	var results []ssa.Value
+	for _, b := range fn.Blocks {
+		for _, in := range b.Instrs {
+			call, ok := in.(*ssa.Call)
+			if !ok {
+				continue
+			}
+			sc := call.Call.StaticCallee()
+			if sc == nil {
+				continue
+			}
+			if sc != trav && sc.Origin() != trav {
+				continue
+			}
+			if isNodePtrType(call.Type()) {
+				results = append(results, call)
+				continue
+			}
+			for _, r := range *call.Referrers() {
+				if ex, isEx := r.(*ssa.Extract); isEx && isNodePtrType(ex.Type()) {
+					results = append(results, ex)
+				}
+			}
+		}
+	}
+	if len(results) == 0 {
+		c.Undecided(rule, name, fn.Pos(), "the node result of the traversal call was not found")
+		return
+	}
+	isNilC := func(v ssa.Value) bool { k, isK := v.(*ssa.Const); return isK && k.IsNil() }
+	ok := true
+	n := 0
+	for _, v := range results {
+		// the blocks in which v is known to be non-nil
+		var safe []*ssa.BasicBlock
+		for _, r := range *v.Referrers() {
+			bo, isB := r.(*ssa.BinOp)
+			if !isB || !(bo.Op == token.NEQ || bo.Op == token.EQL) || !(bo.X == v && isNilC(bo.Y) || bo.Y == v && isNilC(bo.X)) {
+				continue
+			}
+			for _, r2 := range *bo.Referrers() {
+				iff, isIf := r2.(*ssa.If)
+				if !isIf {
+					continue
+				}
+				succ := iff.Block().Succs[0]
+				if bo.Op == token.EQL {
+					succ = iff.Block().Succs[1]
+				}
+				// the successor must be entered only from this test
+				if len(succ.Preds) == 1 {
+					safe = append(safe, succ)
+				}
+			}
+		}
+		// ... or by a helper of the package that answers true only for a non-nil node (`list.holds(v, key)`)
+		for _, r := range *v.Referrers() {
+			call, isC := r.(*ssa.Call)
+			if !isC {
+				continue
+			}
+			sc := call.Call.StaticCallee()
+			if sc == nil || !isBasicKind(call.Type(), types.Bool) {
+				continue
+			}
+			if o := sc.Origin(); o != nil {
+				sc = o
+			}
+			if sc.Pkg != fn.Pkg {
+				continue
+			}
+			ai := -1
+			for i, a := range call.Call.Args {
+				if a == v {
+					ai = i
+				}
+			}
+			if ai < 0 || !trueImpliesNonNil(c, sc, ai) {
+				continue
+			}
+			for _, r2 := range *call.Referrers() {
+				switch x := r2.(type) {
+				case *ssa.If:
+					if succ := x.Block().Succs[0]; len(succ.Preds) == 1 {
+						safe = append(safe, succ)
+					}
+				case *ssa.UnOp:
+					if x.Op != token.NOT {
+						continue
+					}
+					for _, r3 := range *x.Referrers() {
+						if iff, isIf := r3.(*ssa.If); isIf {
+							if succ := iff.Block().Succs[1]; len(succ.Preds) == 1 {
+								safe = append(safe, succ)
+							}
+						}
+					}
+				}
+			}
+		}
+		for _, r := range *v.Referrers() {
+			fa, isFA := r.(*ssa.FieldAddr)
+			if !isFA || fa.X != v {
+				continue
+			}
+			n++
+			guarded := false
+			for _, sb := range safe {
+				if sb == fa.Block() || sb.Dominates(fa.Block()) {
+					guarded = true
+				}
+			}
+			if !guarded {
+				ok = false
+				c.Fail(rule, name, fa.Pos(), "a field of the node the traversal returned is read before that node is known to be non-nil: for a key beyond the last element (or an empty list) the traversal returns nil and %s panics instead of answering like a map", fn.Name())
+			}
+		}
+	}
+	if ok {
+		c.Ok(rule, name, fn.Pos(), fmt.Sprintf("%d field accesses through the traversal's node result, each behind its nil test", n))
+	}
+}
+
+// trueImpliesNonNil: every path of the boolean helper h that can answer true has established that its i-th parameter
+// is not nil (the result is the constant false, or a term, only behind `param != nil`).
+func trueImpliesNonNil(c *core.Ctx, h *ssa.Function, i int) bool {
+	if h.Origin() != nil {
+		h = h.Origin()
+	}
+	if i >= len(h.Params) || len(h.Blocks) == 0 {
+		return false
+	}
+	an := c.Analyze(h)
+	if len(an.Problems) != 0 || len(an.Headers) != 0 {
+		return false
+	}
+	prm := &ir.Term{Op: "param", Aux: h.Params[i].Name()}
+	isNil := &ir.Term{Op: "bin", Aux: "==", Args: sorted2(ir.Nil, prm)}
+	for _, p := range an.AllPaths() {
+		if p.Exit != ir.ExitReturn || len(p.Results) != 1 {
+			return false
+		}
+		r := p.Results[0]
+		if r.IsConst() && r.Aux == "false" {
+			continue
+		}
+		if polarity(p, isNil) >= 0 {
+			return false
+		}
+	}
+	return true
 }
